@@ -45,9 +45,11 @@ func runTunnelTCP(r *tunRun) {
 		layer = knxnet.TunnelLayerBusmon
 	}
 	gw.Busmon = c.Busmon
-	tun, err := knx.NewTunnel(fmt.Sprintf("%s:%d", gwIP, gwPort), layer, knx.TunnelConfig{
-		ResendInterval: c.R, HeartbeatInterval: c.H, ResponseTimeout: c.T, SendLocalAddress: c.LocalAddr, UseTCP: true,
-	})
+	tcfg := knx.TunnelConfig{ResendInterval: c.R, HeartbeatInterval: c.H, ResponseTimeout: c.T, SendLocalAddress: c.LocalAddr, UseTCP: true}
+	if c.Defaults {
+		tcfg = knx.TunnelConfig{SendLocalAddress: c.LocalAddr, UseTCP: true}
+	}
+	tun, err := knx.NewTunnel(fmt.Sprintf("%s:%d", gwIP, gwPort), layer, tcfg)
 	r.h.Created = e.Stamp()
 	if err != nil {
 		e.Violate("C03", "tcp-connect-failed", "NewTunnel over a lossless TCP stream failed: %v", err)
